@@ -262,7 +262,7 @@ class MediaList(cssutils.util._NewListBase):
         list, returns ``None``.
         """
         try:
-            return self[index].mediaType
+            return list(self)[index].value.mediaType
         except IndexError:
             return None
 
